@@ -115,10 +115,12 @@ func checkC12(w *Worker) {
 		}
 		run := func(cmd []string, h []int) AppRun {
 			key := fmt.Sprint(bi, cmd, h)
+			rc := appCase{Args: append([]string{"--no-color"}, cmd...), Files: map[string]string{"food.yaml": bookText, "log.yaml": text(h)}}
 			if r, ok := cache[key]; ok {
+				logRun(rc, r)
 				return r
 			}
-			r := runApp(appCase{Args: append([]string{"--no-color"}, cmd...), Files: map[string]string{"food.yaml": bookText, "log.yaml": text(h)}})
+			r := runApp(rc)
 			if len(cache) < 300000 {
 				cache[key] = r
 			}
